@@ -76,7 +76,7 @@ Print Assumptions C04_normal_feed_reports_no_error.
    fragmented message is open -- followed by ANY bytes: the messages completed before the violation are delivered, exactly
    one ProtocolError (critical = False) is reported, the feed fails (the session then disconnects), and neither the
    violating frame nor anything after it produces a message event *)
-Theorem C04_violation_after_conforming_prefix : forall cf app, passive app -> zpos (c_ping_timeout cf) = None ->
+Theorem C04_violation_after_conforming_prefix : forall cf app, benign app -> zpos (c_ping_timeout cf) = None ->
   forall fs lfs c open ms open' f lf rest,
   idle c open -> data_head open -> Forall plain fs -> forms_ok fs lfs ->
   ref_messages open fs = Some (ms, open') ->
@@ -92,7 +92,7 @@ Print Assumptions C04_violation_after_conforming_prefix.
 (* ... and the same for every header-level violation (by C04_header_rules: a reserved bit, a reserved opcode, a fragmented
    control frame, a control frame announcing more than 125 bytes), the header encoded with any of the three length forms
    and followed by ANY bytes: the parser judges the header as soon as its length field is complete *)
-Theorem C04_header_violation_after_conforming_prefix : forall cf app, passive app -> zpos (c_ping_timeout cf) = None ->
+Theorem C04_header_violation_after_conforming_prefix : forall cf app, benign app -> zpos (c_ping_timeout cf) = None ->
   forall fs lfs c open ms open' h lf len rest,
   idle c open -> data_head open -> Forall plain fs -> forms_ok fs lfs ->
   ref_messages open fs = Some (ms, open') ->
